@@ -169,6 +169,14 @@ Fixpoint closedb (B : list var) (f : formula) : bool :=
   | FQ _ vs g => negb (Nat.eqb (List.length vs) 0) && closedb (rev vs ++ B)%list g
   end.
 Definition closed_formula (f : formula) : bool := closedb [] f.
+(* parser image: every quantifier binds at least one variable *)
+Fixpoint binders_nonempty (f : formula) : bool :=
+  match f with
+  | FAtomic _ => true
+  | FNot g => binders_nonempty g
+  | FBin _ l r => binders_nonempty l && binders_nonempty r
+  | FQ _ vs g => negb (Nat.eqb (List.length vs) 0) && binders_nonempty g
+  end.
 
 (* the assembly every task performs before a problem is printed *)
 Definition pipeline (raw : problem) (d : decomposition) : list problem :=
